@@ -25,29 +25,34 @@ Proof. induction 1 as [|x l Hx _ IH]; cbn [filter]; [reflexivity|]. rewrite Hx, 
 Lemma filter_none {A} (p : A -> bool) l : Forall (fun x => p x = false) l -> filter p l = [].
 Proof. induction 1 as [|x l Hx _ IH]; cbn [filter]; [reflexivity|]. rewrite Hx, IH. reflexivity. Qed.
 
-(* what Next will still deliver, in terms of the invariant's R ++ D *)
-Lemma pending_stream st x sb tb D R :
+(* what Next will still deliver, in terms of the invariant's R ++ E ++ D *)
+Lemma pending_stream st x sb tb A D R E :
   c_sub x = Some sb -> s_pre sb = [] -> find_buf (c_ts x) (st_bufs st) = Some tb ->
-  tail (hist_of st) (c_ts x) (Some tb) (s_off sb) = R ++ D ->
+  tail (hist_of st) (c_ts x) (Some tb) (s_off sb) = R ++ E ++ D ->
   Forall (fun it => skipped (s_snap sb) it = true) R ->
+  dup_of (s_snap sb) (c_idx x) A E ->
   Forall (fun it => c_idx x < item_idx it) D -> s_snap sb <= c_idx x ->
-  pending st x = D.
+  pending st x = E ++ D.
 Proof.
-  intros Es Hpre Eb Ht HR HD Hsn. unfold pending. rewrite Es, Hpre. cbn [app].
+  intros Es Hpre Eb Ht HR HE HD Hsn. unfold pending. rewrite Es, Hpre. cbn [app].
   unfold buf_items. rewrite Eb. unfold tail in Ht. cbn [ob_items hist_of h_lq] in Ht. rewrite Ht.
   rewrite filter_app, filter_none, filter_all; [reflexivity| |].
-  - eapply Forall_impl; [|exact HD]. cbn. intros it H. rewrite not_skipped_gt by lia. reflexivity.
+  - apply Forall_app. split.
+    + destruct HE as [->|(A' & e & -> & _ & Hei & Hcs)]; [constructor|].
+      constructor; [|constructor]. rewrite not_skipped_ge by lia. reflexivity.
+    + eapply Forall_impl; [|exact HD]. cbn. intros it H. rewrite not_skipped_ge by lia. reflexivity.
   - eapply Forall_impl; [|exact HR]. cbn. intros it H. rewrite H. reflexivity.
 Qed.
 
 (* the stream-phase part of the invariant of an open, streaming client *)
 Lemma stream_inv c ls k x :
   env_ok c ls -> client_of (run c ls) k = Some x -> is_open x = true -> streaming x = true ->
-  exists sb tb A D R,
+  exists sb tb A D R E,
     c_sub x = Some sb /\ s_pre sb = [] /\ find_buf (c_ts x) (st_bufs (run c ls)) = Some tb /\
     core (hist_of (run c ls)) (c_ts x) (c_view x) (c_idx x) A D /\
-    tail (hist_of (run c ls)) (c_ts x) (Some tb) (s_off sb) = R ++ D /\
-    Forall (fun it => skipped (s_snap sb) it = true) R /\ s_snap sb <= c_idx x.
+    tail (hist_of (run c ls)) (c_ts x) (Some tb) (s_off sb) = R ++ E ++ D /\
+    Forall (fun it => skipped (s_snap sb) it = true) R /\ dup_of (s_snap sb) (c_idx x) A E /\
+    s_snap sb <= c_idx x.
 Proof.
   intros He Hx Hop Hstr. pose proof (ginv_of_env c ls He) as G.
   set (st := run c ls) in *. destruct G as [Gnd Gst Ginc Ghi Gq Gh Gr Gi Gc Gn].
@@ -59,10 +64,10 @@ Proof.
   2: { destruct Hsn as (_ & acc & rest & A & B2 & D & s & [[Hh _]|(_ & _ & Hpre)] & _).
        - rewrite Hh in Hstr. discriminate.
        - rewrite Hpre in Hstr. destruct (c_h x); discriminate. }
-  destruct Hst as (Hpre & _ & _ & Hsn & A & D & R & Hc & Ht & HR).
+  destruct Hst as (Hpre & _ & _ & Hsn & A & D & R & E & Hc & Ht & HR & HE).
   destruct Hl as (tb & Etb & _). rewrite Etb in Ht.
-  exists sb, tb, A, D, R. split; [reflexivity|]. split; [exact Hpre|]. split; [exact Etb|].
-  split; [exact Hc|]. split; [exact Ht|]. split; [exact HR|exact Hsn].
+  exists sb, tb, A, D, R, E. split; [reflexivity|]. split; [exact Hpre|]. split; [exact Etb|].
+  split; [exact Hc|]. split; [exact Ht|]. split; [exact HR|]. split; [exact HE|exact Hsn].
 Qed.
 
 (* ------------------------------------------------------------------ the view is a committed state *)
@@ -107,9 +112,10 @@ Theorem eventual c ls k x :
   forall key, aget key (c_view x) = content_now (run c ls) (c_ts x) key.
 Proof.
   intros He Hx Hop Hstr Hpen.
-  destruct (stream_inv c ls k x He Hx Hop Hstr) as (sb & tb & A & D & R & Es & Hpre & Eb & Hc & Ht & HR & Hsn).
+  destruct (stream_inv c ls k x He Hx Hop Hstr) as (sb & tb & A & D & R & E & Es & Hpre & Eb & Hc & Ht & HR & HE & Hsn).
   destruct Hc as [Hsp Hv Hle Hgt Hss].
-  rewrite (pending_stream _ _ _ _ D R Es Hpre Eb Ht HR Hgt Hsn) in Hpen. subst D.
+  rewrite (pending_stream _ _ _ _ A D R E Es Hpre Eb Ht HR HE Hgt Hsn) in Hpen.
+  apply app_eq_nil in Hpen as [_ ->].
   pose proof (ginv_of_env c ls He) as [_ Gst _ _ _ _ _ _ _ _].
   cbn [hist_of h_log h_base] in *. rewrite app_nil_r in Hsp.
   intros key. rewrite (Hv key). unfold content_now. destruct (matches (c_ts x) key) eqn:Em; [|reflexivity].
@@ -118,16 +124,25 @@ Qed.
 
 (* ------------------------------------------------------------------ nothing skipped, nothing twice *)
 
+(* [dup]: nothing, or the single batch at the client's own index — the one at the snapshot's index,
+   which the view already contains and which Next delivers once more *)
+Definition dup_batch (st : state) (x : client) (dup : list item) : Prop :=
+  dup = [] \/ exists e, dup = [e] /\ item_idx e = c_idx x /\ In e (proj (c_ts x) (st_log st)).
+
 Theorem no_skip c ls k x :
   env_ok c ls ->
   client_of (run c ls) k = Some x -> is_open x = true -> streaming x = true ->
-  pending (run c ls) x = proj (c_ts x) (log_after (c_idx x) (st_log (run c ls))).
+  exists dup, dup_batch (run c ls) x dup /\
+              pending (run c ls) x = dup ++ proj (c_ts x) (log_after (c_idx x) (st_log (run c ls))).
 Proof.
   intros He Hx Hop Hstr.
-  destruct (stream_inv c ls k x He Hx Hop Hstr) as (sb & tb & A & D & R & Es & Hpre & Eb & Hc & Ht & HR & Hsn).
+  destruct (stream_inv c ls k x He Hx Hop Hstr) as (sb & tb & A & D & R & E & Es & Hpre & Eb & Hc & Ht & HR & HE & Hsn).
   destruct Hc as [Hsp Hv Hle Hgt Hss].
-  rewrite (pending_stream _ _ _ _ D R Es Hpre Eb Ht HR Hgt Hsn).
-  cbn [hist_of h_log] in Hsp. unfold log_after.
+  rewrite (pending_stream _ _ _ _ A D R E Es Hpre Eb Ht HR HE Hgt Hsn).
+  cbn [hist_of h_log] in Hsp. exists E. split.
+  { destruct HE as [->|(A' & e & -> & EA & Hei & _)]; [left; reflexivity|]. right. exists e.
+    split; [reflexivity|]. split; [exact Hei|]. rewrite Hsp, EA, !in_app_iff. left; right; left; reflexivity. }
+  f_equal. unfold log_after.
   rewrite (proj_filter (c_ts x) (fun i => N.ltb (c_idx x) i)), Hsp, filter_app.
   rewrite filter_none, filter_all; [reflexivity| |].
   - eapply Forall_impl; [|exact Hgt]. cbn. intros it H. apply N.ltb_lt. exact H.
@@ -160,7 +175,7 @@ Proof.
     destruct Hsub as [Hst|Hsn].
     2: { destruct Hsn as (Hs0 & acc & rest & A & B2 & D & s & [[_ Hpre]|(_ & _ & Hpre)] & _);
          rewrite Hs0, drop_skipped_zero, Hpre in Epre; [destruct rest; discriminate|discriminate]. }
-    destruct Hst as (_ & Hh & _ & Hsn & A & D & R & Hc & Ht & HR).
+    destruct Hst as (_ & Hh & _ & Hsn & A & D & R & E & Hc & Ht & HR & HE).
     destruct Hc as [Hsp Hv Hle Hgt Hss].
     destruct Hl as (tb & Etb & _ & Hid). unfold its in Efn. rewrite Etb, Hid, N.eqb_refl in Efn.
     rewrite Etb in Ht. unfold tail in Ht. cbn [ob_items] in Ht.
@@ -168,9 +183,12 @@ Proof.
     2: { rewrite first_new_none in Efn; [discriminate|]. rewrite HRl in HR. apply Forall_app in HR. apply HR. }
     rewrite HS, first_new_skip in Efn by exact HR.
     destruct l as [|d l']; [discriminate|]. cbn [first_new] in Efn.
-    assert (Hdgt : c_idx x < item_idx d).
-    { rewrite Forall_forall in Hgt. apply Hgt. rewrite HD. left; reflexivity. }
-    rewrite not_skipped_gt in Efn by lia. injection Efn as <- _.
+    assert (Hdge : s_snap sb <= item_idx d /\ c_idx x <= item_idx d).
+    { destruct HE as [->|(A' & e & -> & EA & Hei & Hcs)]; cbn [app] in HD.
+      - assert (In d D) as Hind by (rewrite HD; left; reflexivity).
+        rewrite Forall_forall in Hgt. specialize (Hgt d Hind). lia.
+      - injection HD as Hed _. subst e. lia. }
+    rewrite not_skipped_ge in Efn by lia. injection Efn as <- _.
     unfold handle. destruct Hh as [-> | ->]; destruct d; cbn [c_idx item_idx] in *; try lia.
     all: congruence.
   - (* from the snapshot *)
@@ -181,6 +199,13 @@ Proof.
     + rewrite (Hs acc Hh). lia.
     + rewrite Hs0, drop_skipped_zero, Hpre in Epre. injection Epre as E1 _. congruence.
 Qed.
+
+(* ------------------------------------------------------------------ a batch applied twice *)
+
+(* HealthView.Update / ConfigEntry(List)View.Update on Register/Upsert and Deregister/Delete events:
+   applying the events of a batch a second time changes no row *)
+Theorem batch_idempotent evs m : forall key, aget key (apply evs (apply evs m)) = aget key (apply evs m).
+Proof. exact (apply_replay [] evs m). Qed.
 
 (* ------------------------------------------------------------------ forced resubscription *)
 
@@ -291,13 +316,20 @@ Definition kA : key := (0, 0, 3).
 Definition kB : key := (0, 0, 4).
 
 (* the schedule of the repaired finding 11: two commits are queued, a subscription starts, then the
-   queue is published.  The snapshot@11 is delivered; the queued batches 10 and 11 are skipped. *)
+   queue is published.  The snapshot@11 is delivered; the queued batch 10 is skipped, the batch at the
+   snapshot's own index 11 is delivered once more (same rows, same index). *)
 Definition gap_sched : list label :=
   [ LCommit (Batch 10 [Ev kA (Some 1)] []);
     LCommit (Batch 11 [Ev kA (Some 2); Ev kB (Some 3)] []);
     LSubscribe 0 T_web 0 true 11;
     LPublish; LPublish;
-    LNext 0; LNext 0; LNext 0 ].
+    LNext 0; LNext 0; LNext 0; LNext 0 ].
+
+(* a subscription on an empty subject gets the floor index 1 as its snapshot index; a write at index 1
+   (upstream tests do this; Raft never does) must still be delivered.  Outside [env_ok]. *)
+Definition floor_sched : list label :=
+  [ LSubscribe 0 T_web 0 true 0; LNext 0;
+    LCommit (Batch 1 [Ev kA (Some 1)] []); LPublish; LNext 0 ].
 
 (* a second subscriber keeps its subscription across a restore: the topic buffer is dropped, the
    re-subscribing client gets a new buffer *)
@@ -352,6 +384,18 @@ Proof. eexists. do 8 (split; [vm_compute; reflexivity|]). vm_compute; reflexivit
 
 Lemma clean_witness : settled true clean_sched [(kB, 2)] 12.
 Proof. eexists. do 8 (split; [vm_compute; reflexivity|]). vm_compute; reflexivity. Qed.
+
+Lemma floor_witness :
+  exists x, client_of (run true floor_sched) 0 = Some x /\ c_view x = [(kA, 1)] /\ c_idx x = 1 /\
+            snd (step (run true floor_sched) (LNext 0)) = OBlock.
+Proof. eexists. do 3 (split; [vm_compute; reflexivity|]). vm_compute; reflexivity. Qed.
+
+(* after the re-delivery of the batch at the snapshot's index: same view, same index *)
+Lemma gap_duplicate_witness :
+  exists x it st',
+    client_of (run true (removelast gap_sched)) 0 = Some x /\ c_idx x = 11 /\ c_view x = [(kA, 2); (kB, 3)] /\
+    step (run true (removelast gap_sched)) (LNext 0) = (st', ODeliver it) /\ item_idx it = 11.
+Proof. eexists _, _, _. do 4 (split; [vm_compute; reflexivity|]). vm_compute; reflexivity. Qed.
 
 Lemma index_behind_witness :
   exists x,
